@@ -198,6 +198,12 @@ func Cleanup(pipe *pubsub.Queue[fun.Worker], timeout time.Duration) *Service {
 
 			ec := &erc.Collector{}
 
+			// pick up the jobs that were accepted by the (now
+			// closed) queue but not yet read by Run.
+			for item, ok := pipe.Remove(); ok; item, ok = pipe.Remove() {
+				cache.PushBack(item)
+			}
+
 			ec.Add(itertool.ParallelForEach(ctx, cache.PopIterator(),
 				func(ctx context.Context, wf fun.Worker) error {
 					ec.Add(wf.WithRecover().Run(ctx))
